@@ -83,12 +83,16 @@ type World struct {
 	// Env: environment variables (of those the code under test reads) set while the world executes; the references
 	// are computed without them - a result must not depend on them.
 	Env map[string]string `json:"env,omitempty"`
+	// Clock: simulated time moved forward by Clock[k mod len] nanoseconds before the k-th executed call of the
+	// world; only drawn when the tree reads the clock. The references are computed whenever they are computed - a
+	// result must not depend on the time.
+	Clock []int64 `json:"clock,omitempty"`
 }
 
 // Case is a world plus how it is executed.
 type Case struct {
-	Prop string `json:"prop"`
-	World World `json:"world"`
+	Prop  string `json:"prop"`
+	World World  `json:"world"`
 	// Order (serial execution): sequence of task ids; each occurrence runs that task's next call.
 	Order []int `json:"order,omitempty"`
 	// Sched (scheduled execution): explicit preemption list. nil with Order==nil means "tasks one after another".
